@@ -5,6 +5,9 @@ from . import alphabet as A
 from . import refmodel as R
 
 
+CURRENT_VIA = None
+
+
 def net_points(desc, seed=0):
     """(unweighted points, weights, homogeneous points) for a descriptor"""
     if 'points' in desc:
@@ -19,7 +22,15 @@ def net_points(desc, seed=0):
     return pts, w, pw
 
 
-def build(desc, seed=0, **ctor_kw):
+def build(desc, seed=0, via=None, **ctor_kw):
+    """real geomdl object for a descriptor.  via='history': the object does not start its life with this definition -
+    it is first built with other control points and other knot vectors (same sizes), every public derived view is read
+    (filling whatever caches exist), and only then the final control points and knot vectors are assigned through the
+    public setters.  Checks use it to judge objects that reached a definition through edits instead of fresh ones."""
+    if via is None:
+        via = CURRENT_VIA          # set by the runner from case['via'] so that every module supports it unchanged
+    if via in ('history', 'history2'):
+        return _build_via_history(desc, seed, order=via, **ctor_kw)
     from geomdl import BSpline, NURBS
     pd = desc['pdim']
     mod = NURBS if desc['rational'] else BSpline
@@ -44,6 +55,81 @@ def build(desc, seed=0, **ctor_kw):
         obj.knotvector_u = list(desc['kvs'][0])
         obj.knotvector_v = list(desc['kvs'][1])
         obj.knotvector_w = list(desc['kvs'][2])
+    return obj
+
+
+def alt_kv(kv, normalized):
+    """another valid knot vector of the same length and multiplicity pattern"""
+    lo, hi = kv[0], kv[-1]
+    if normalized:
+        return [lo + (hi - lo) * ((k - lo) / (hi - lo)) ** 2 for k in kv]      # interior knots moved, same range
+    return [lo + (k - lo) / 2.0 for k in kv]                                  # half the range: old domain end is interior
+
+
+def _build_via_history(desc, seed, order='history', **ctor_kw):
+    pd = desc['pdim']
+    norm = desc.get('normalize_kv', True)
+    pts, w, pw = net_points(desc, seed)
+    first = dict(desc)
+    first['kvs'] = [alt_kv(kv, norm) for kv in desc['kvs']]
+    first['points'] = [[c + 1.5 for c in p] for p in pts]
+    first['weight_values'] = [wi * 2.0 if i % 2 else wi for i, wi in enumerate(w)]
+    obj = build(first, seed, via='fresh', **ctor_kw)
+
+    def read_all():
+        for name in ('ctrlpts', 'weights', 'ctrlptsw', 'ctrlpts2d', 'bbox', 'domain', 'range', 'evalpts', 'data', 'sample_size',
+                     'delta', 'vertices', 'faces'):
+            try:
+                getattr(obj, name)
+            except Exception:
+                pass
+        try:
+            doms = domain_params(obj)
+            mid = [(lo + hi) / 2.0 for lo, hi in doms]
+            obj.evaluate_single(mid[0] if pd == 1 else mid)
+            if pd == 1:
+                obj.derivatives(mid[0], 2)
+            elif pd == 2:
+                obj.derivatives(mid[0], mid[1], 2)
+        except Exception:
+            pass
+        # public query functions that take the object (any memo they keep on it is filled now, with soon-stale data)
+        from geomdl import construct, operations
+        queries = []
+        if pd == 1:
+            queries = [lambda: operations.tangent(obj, mid[0]), lambda: operations.find_ctrlpts(obj, mid[0]),
+                       lambda: operations.length_curve(obj)]
+        elif pd == 2:
+            queries = [lambda: construct.extract_curves(obj), lambda: operations.tangent(obj, mid),
+                       lambda: operations.normal(obj, mid), lambda: operations.find_ctrlpts(obj, mid[0], mid[1])]
+        else:
+            queries = [lambda: construct.extract_surfaces(obj), lambda: construct.extract_isosurface(obj)]
+        for q in queries:
+            try:
+                q()
+            except Exception:
+                pass
+
+    def set_points():
+        P = pw if desc['rational'] else pts
+        if pd == 1:
+            obj.set_ctrlpts(copy.deepcopy(P))
+        else:
+            obj.set_ctrlpts(copy.deepcopy(P), *desc['sizes'])
+
+    def set_knots():
+        if pd == 1:
+            obj.knotvector = list(desc['kvs'][0])
+        else:
+            for a, nm in enumerate('uvw'[:pd]):
+                setattr(obj, 'knotvector_' + nm, list(desc['kvs'][a]))
+
+    # every public derived view is read before and between the edits that lead to the wanted definition
+    read_all()
+    for step in ((set_points, set_knots) if order == 'history' else (set_knots, set_points)):
+        step()
+        if step is not (set_knots if order == 'history' else set_points):
+            read_all()
     return obj
 
 
